@@ -1014,6 +1014,25 @@ func c20RunMatch(mode string, probe string, pats []string) string {
 	if calls != 1 {
 		s += " calls=" + strconv.Itoa(calls)
 	}
+	// "first pattern in list order" is the order of the caller's list: matching must leave that list as it was
+	// (a self-reorganising list — move-to-front, drop-after-use — answers a LATER match by a pattern that is not the
+	// first accepting one).  Every pattern's effect knows its index, so the order can be read back through Apply.
+	for i, p := range patterns {
+		if r, _ := p.Apply(nil).(string); !strings.HasPrefix(r, "e"+strconv.Itoa(i)+" ") {
+			s += " patterns-reordered"
+			break
+		}
+	}
+	// and the same match once more, from the same list, gives the same answer
+	var res2 interface{}
+	if mode == "m" {
+		res2 = fpgo.DefPattern(patterns...).MatchFor(v)
+	} else {
+		res2 = fpgo.Either(v, patterns...)
+	}
+	if s2, _ := res2.(string); s2 != res {
+		s += " again=" + s2
+	}
 	return s
 }
 
